@@ -31,6 +31,13 @@ Listed(files, d)  == {k \in 1..Len(files) : Within(files[k], d)}
 Ambiguous == {"", "a/b", ".", ".."}   \* the members of that class used by the model ("." and ".." are removed by URL normalisation)
 Admissible(files) == \A k \in 1..Len(files) : \A i \in 1..Len(files[k]) : files[k][i] \notin Ambiguous
 
+\* Several torrents may carry the same name.  The FUSE root resolves a name to
+\* one torrent, and always to the same one: the one with the least info-hash
+\* (tor.GetByName).  tors is a sequence of [name, hash]; 0 = no such torrent.
+ByName(tors, name) ==
+  LET S == {k \in DOMAIN tors : tors[k].name = name} IN
+  IF S = {} THEN 0 ELSE CHOOSE k \in S : \A j \in S : tors[k].hash <= tors[j].hash
+
 \* A path is shadowed when one of its proper prefixes is itself a file: a tree
 \* of directory entries (FUSE) can show that name either as the file or as
 \* the directory, not both, so below it nothing is required of such a tree.
